@@ -916,7 +916,7 @@ func c13R6(p *Prog, r *Report) {
 									walk(ret.Results[ri])
 								}
 							})
-							return
+							// (the arguments are walked as well: a window of the samples may be what is handed in)
 						}
 					}
 				}
